@@ -89,8 +89,14 @@ class ListTensor(Operator):
         ):
             indices = [sub(e, 0, 1).indices() for e in expressions]
             if all(
-                i[0] == k and all(isinstance(subindex, Index) for subindex in i[1:])
-                for k, i in enumerate(indices)
+                i[0] == k
+                and all(isinstance(subindex, Index) for subindex in i[1:])
+                # the component tensor must bind exactly the trailing indices, in order,
+                # each once, and none of them may be free in the indexed tensor
+                and tuple(sub(e, 1).indices()) == tuple(i[1:])
+                and len(set(i[1:])) == len(i[1:])
+                and not any(j.count() in sub(e0, 0, 0).ufl_free_indices for j in i[1:])
+                for (k, i), e in zip(enumerate(indices), expressions)
             ):
                 return sub(e0, 0, 0)
 
